@@ -35,11 +35,15 @@ func propC06(c *Ctx) {
 		return
 	}
 	ld, lat := loads[0], lats[0]
-	localNum := extractOf(lat, 0)
+	_ = lat
 
 	// ---- R6.1 ---------------------------------------------------------
 	c.Rule("R6.1", "target clipped to stop before the step size; step size = min(clipped target - position, batch) is the limit passed to load", 3)
-	limit := ld.Call.Args[5]
+	startArg, limit := loadRangeArgs(ld)
+	if limit == nil {
+		c.Violation("R6.1", "Converge/load-arguments", ld.Pos(), "load is not handed a step size")
+		return
+	}
 	// the step size is bounded by the batch size and by (target - position);
 	// the target is whatever position is subtracted from
 	var target, span ssa.Value
@@ -54,7 +58,7 @@ func propC06(c *Ctx) {
 			seen[v] = true
 			switch x := v.(type) {
 			case *ssa.BinOp:
-				if x.Op == token.SUB && stripNum(x.Y) == localNum {
+				if x.Op == token.SUB && m.isLatNum(x.Y) {
 					target, span = x.X, x
 				}
 			case *ssa.Phi:
@@ -96,12 +100,8 @@ func propC06(c *Ctx) {
 				"the target of a step never exceeds the head reported by the source (a stop beyond the head must not become the target)")
 		}
 	}
-	okStart := false
-	if b, ok := ld.Call.Args[4].(*ssa.BinOp); ok && b.Op == token.ADD && b.X == localNum {
-		if n, ok := constInt(b.Y); ok && n == 1 {
-			okStart = true
-		}
-	}
+	okStart, _ := loadStartsAfterPosition(m, ld)
+	_ = startArg
 	c.Check("R6.1", "Converge/load-start=position+1", ld.Pos(), okStart, "range starts right after the recorded position")
 
 	// ---- R6.2 ---------------------------------------------------------
@@ -110,7 +110,7 @@ func propC06(c *Ctx) {
 		n, ok := constInt(b.Y)
 		return b.Op == token.GTR && isStopLoad(b.X, fStop) && ok && n == 0
 	})
-	isPos := func(v ssa.Value) bool { return stripNum(m.reg.Resolve(stripNum(v))) == localNum }
+	isPos := func(v ssa.Value) bool { return m.isLatNum(v) }
 	assumed := map[ssa.Value]bool{} // the scenario "stop > 0 and position >= stop", for conditions used as values
 	for _, f := range m.reg.Funcs() {
 		allInstrs(f, func(in ssa.Instruction) {
@@ -419,6 +419,12 @@ func propC06Latest(c *Ctx, lt *ssa.Function, fStart *types.Var) {
 		}
 	}
 	cellOf := func(v ssa.Value) ssa.Value {
+		// the address of a scan destination standing for its content (a field of a struct the row is scanned into)
+		for _, sc := range scanCells {
+			if stripConv(sc) == v {
+				return v
+			}
+		}
 		u, ok := v.(*ssa.UnOp)
 		if !ok || u.Op != token.MUL {
 			return nil
@@ -429,6 +435,54 @@ func propC06Latest(c *Ctx, lt *ssa.Function, fStart *types.Var) {
 			}
 		}
 		return nil
+	}
+	// a position returned as one struct value {number, hash}: its two parts
+	splitPosition := func(v ssa.Value) (num, hash ssa.Value) {
+		v = stripConv(lreg.Resolve(stripConv(v)))
+		u, ok := v.(*ssa.UnOp)
+		if !ok || u.Op != token.MUL {
+			return nil, nil
+		}
+		al, ok := u.X.(*ssa.Alloc)
+		if !ok {
+			return nil, nil
+		}
+		st, ok := al.Type().Underlying().(*types.Pointer).Elem().Underlying().(*types.Struct)
+		if !ok {
+			return nil, nil
+		}
+		part := func(fi int) ssa.Value {
+			var out ssa.Value
+			for _, ref := range *al.Referrers() {
+				fa, ok := ref.(*ssa.FieldAddr)
+				if !ok || fa.Field != fi {
+					continue
+				}
+				for _, sc := range scanCells {
+					if stripConv(sc) == ssa.Value(fa) {
+						out = fa // scanned into this field
+					}
+				}
+				for _, r2 := range *fa.Referrers() {
+					if s2, ok := r2.(*ssa.Store); ok && s2.Addr == ssa.Value(fa) {
+						out = s2.Val
+					}
+				}
+			}
+			return out
+		}
+		for i := 0; i < st.NumFields(); i++ {
+			ft := st.Field(i).Type()
+			if isIntType(ft) && num == nil {
+				num = part(i)
+			}
+			if sl, ok := ft.Underlying().(*types.Slice); ok && hash == nil {
+				if b, ok := sl.Elem().Underlying().(*types.Basic); ok && b.Kind() == types.Byte {
+					hash = part(i)
+				}
+			}
+		}
+		return
 	}
 	// the values a result can be, each with the return statement it leaves its own function through
 	type leaf struct {
@@ -504,11 +558,18 @@ func propC06Latest(c *Ctx, lt *ssa.Function, fStart *types.Var) {
 	kinds := map[string]bool{}
 	var rowAts, otherAts []*ssa.Return
 	for _, sr := range lreg.SuccessReturns() {
-		if len(sr.Vals) != 3 {
+		var numV, hashV ssa.Value
+		switch len(sr.Vals) {
+		case 3:
+			numV, hashV = sr.Vals[0], sr.Vals[1]
+		case 2:
+			numV, hashV = splitPosition(sr.Vals[0])
+		}
+		if numV == nil || hashV == nil {
 			continue
 		}
 		nret++
-		nums, hashes := expand(sr.Vals[0], sr.Ret, 0), expand(sr.Vals[1], sr.Ret, 0)
+		nums, hashes := expand(numV, sr.Ret, 0), expand(hashV, sr.Ret, 0)
 		ok, detail := len(nums) > 0 && len(hashes) > 0, ""
 		for _, nl := range nums {
 			if !ok {
